@@ -152,6 +152,34 @@ def check_subst_edc():
                   len(jobs), [dict(case=dict(subst_edc=r['args']), observed=r['got'], required=r['expected']) for r in res if r], exhaustive=True)
 
 
+def eval_priority(args):
+    """XSD 1.1: EVERY element particle that competes with a wildcard of its content model wins over it - the child is governed by the element declaration (typed xs:int here),
+    whatever the position of the particle among the competitors and whatever processContents the wildcard has"""
+    shape, pc, names = args
+    import xmlschema
+    els = ''.join(f'<xs:element name="{n}" type="xs:int" minOccurs="0"/>' for n in names)
+    wc = f'<xs:any processContents="{pc}" minOccurs="0"/>'
+    body = {'wild-first': f'<xs:sequence>{wc}{els}</xs:sequence>', 'wild-last': f'<xs:sequence>{els}{wc}</xs:sequence>',
+            'choice': f'<xs:choice minOccurs="0" maxOccurs="unbounded"><xs:any processContents="{pc}"/>' + els.replace(' minOccurs="0"', '') + '</xs:choice>'}[shape]
+    s = xmlschema.XMLSchema11(f'<xs:schema {cm.XS}><xs:element name="r"><xs:complexType>{body}</xs:complexType></xs:element></xs:schema>')
+    bad = []
+    for n in names:
+        for v, ok in (('7', True), ('x', False)):
+            doc = f'<r><{n}>{v}</{n}></r>'
+            try: got = s.is_valid(doc); data = s.decode(doc, validation='lax')[0]
+            except Exception as e: got = 'raised ' + type(e).__name__; data = None
+            if got != ok: bad.append((doc, got, ok))
+            elif ok and (not isinstance(data, dict) or data.get(n) not in (7, [7])): bad.append((doc, f'decoded {data!r}', f'{n}: 7 (an xs:int)'))
+    return dict(args=list(args), bad=bad) if bad else None
+
+
+def check_priority():
+    jobs = [(sh, pc, names) for sh in ('wild-first', 'wild-last', 'choice') for pc in ('lax', 'strict', 'skip') for names in (('a',), ('a', 'b'), ('a', 'b', 'c'))]
+    res = [eval_priority(j) for j in jobs]
+    return result('C15.xsd11_element_priority_over_wildcard', f'{len(jobs)} XSD 1.1 models: one wildcard (lax / strict / skip) competing with 1-3 typed local elements (sequence with the wildcard first / last, repeating choice) x each element with a valid and an invalid value',
+                  sum(2 * len(j[2]) for j in jobs), [dict(case=dict(priority=r['args']), observed=[list(b) for b in r['bad'][:3]], required='the child is governed by its element declaration') for r in res if r], exhaustive=True)
+
+
 def check_wild_edc():
     jobs = [((e, w, k), pc, gt, order, alts) for e in ('a1', 'a?') for w in ('any?', 'any*', 'any1') for k in ('seq', 'cho') for pc in ('lax', 'strict', 'skip') for gt in ('xs:int', 'xs:string')
             for order in ('element-first', 'wildcard-first') for alts in ('',)]
@@ -252,12 +280,14 @@ def run(tier, seed, open_findings):
     known = load_instances('C15_instances.json')
     return [check(list(cm.two_level_models()), tier, seed, known, 'C15.two_level_models', 4, open_findings),
             check(list(cm.two_level_models_rev()), tier, seed, known, 'C15.two_level_models_rev', 4, open_findings),
-            check(list(cm.variant_models()), tier, seed, known, 'C15.variant_models', 1, open_findings), check_edc(tier, seed), check_subst(tier, seed), check_placement(tier, seed), check_wild_edc(), check_subst_edc()]
+            check(list(cm.variant_models()), tier, seed, known, 'C15.variant_models', 1, open_findings), check_edc(tier, seed), check_subst(tier, seed), check_placement(tier, seed), check_wild_edc(), check_subst_edc(), check_priority()]
 
 
 def replay(check_name, case):
     if case.get('wild_edc'):
         a = case['wild_edc']; r = eval_wild_edc((tuple(a[0]), a[1], a[2], a[3], a[4])); return dict(ok=r is None, observed=r and r['got'], required=r and r['expected'])
+    if case.get('priority'):
+        a = case['priority']; r = eval_priority((a[0], a[1], tuple(a[2]))); return dict(ok=r is None, observed=r and r['bad'][:2], required='the child is governed by its element declaration')
     if case.get('subst_edc'):
         r = eval_subst_edc(tuple(case['subst_edc'])); return dict(ok=r is None, observed=r and r['got'], required=r and r['expected'])
     if case.get('placement'):
